@@ -5,7 +5,8 @@ in-process through harness/impl/callvariant.py's one_run (same argparse sub-pars
 case = {
   'world': <gen_reference world>,
   'files': [ {'kind': 'var', 'rows': [[gene_id, pos1, id, ref, alt, tx_id, gene_name], ...]}
-           | {'kind': 'circ', 'rows': [[gene_id, start0, circ_id, [offsets], [lengths], [introns], tx_id, gene_name], ...]} ],
+           | {'kind': 'circ', 'rows': [[gene_id, start0, circ_id, [offsets], [lengths], [introns], tx_id, gene_name], ...]}
+           | {'kind': 'fusion', 'rows': [[gene_id, pos1, fusion_id, ref, tx_id, gene_name, gpos, acc_gene, acc_tx, acc_symbol, acc_pos1, acc_gpos], ...]} ],
   'runs':  [ {<callvariant run keys>, 'use': [file indices] (default: all)} ]
 }
 Result: {'runs': [ {'fasta': [[header, seq], ...]} | {'__exc__': class} ]}
@@ -38,6 +39,31 @@ CIRC_HEAD = """##fileformat=VCFv4.2
 #CHROM\tPOS\tID\tREF\tALT\tQUAL\tFILTER\tINFO
 """
 
+FUSION_HEAD = """##fileformat=VCFv4.2
+##mopepgen_version=1.4.6
+##parser=parseSTARFusion
+##reference_index=
+##genome_fasta=
+##annotation_gtf=
+##source=Fusion
+##CHROM=<Description="Gene ID">
+##INFO=<ID=TRANSCRIPT_ID,Number=1,Type=String,Description="Transcript ID">
+##INFO=<ID=GENE_SYMBOL,Number=1,Type=String,Description="Gene Symbol">
+##INFO=<ID=GENOMIC_POSITION,Number=1,Type=String,Description="Genomic Position">
+##INFO=<ID=ACCEPTER_GENE_ID,Number=1,Type=String,Description="3' Accepter Transcript's Gene ID">
+##INFO=<ID=ACCEPTER_TRANSCRIPT_ID,Number=1,Type=String,Description="3' Accepter Transcript's Transcript ID">
+##INFO=<ID=ACCEPTER_POSITION,Number=1,Type=Integer,Description="Position of the break point of the 3' accepter transcript">
+#CHROM\tPOS\tID\tREF\tALT\tQUAL\tFILTER\tINFO
+"""
+
+def write_fusion(path, rows):
+    with open(path, 'w') as f:
+        f.write(FUSION_HEAD)
+        for gene_id, pos1, fid, ref, tx_id, gname, gpos, ag, at, asym, apos1, agpos in rows:
+            info = ('TRANSCRIPT_ID=%s;GENE_SYMBOL=%s;GENOMIC_POSITION=%s;ACCEPTER_GENE_ID=%s;ACCEPTER_TRANSCRIPT_ID=%s;'
+                    'ACCEPTER_SYMBOL=%s;ACCEPTER_POSITION=%d;ACCEPTER_GENOMIC_POSITION=%s' % (tx_id, gname, gpos, ag, at, asym, apos1, agpos))
+            f.write('\t'.join([gene_id, str(pos1), fid, ref, '<FUSION>', '.', '.', info]) + '\n')
+
 def write_circ(path, rows):
     with open(path, 'w') as f:
         f.write(CIRC_HEAD)
@@ -58,6 +84,8 @@ def handle(case):
             gp = os.path.join(d, 'f%d.gvf' % i)
             if f['kind'] == 'circ':
                 write_circ(gp, f['rows'])
+            elif f['kind'] == 'fusion':
+                write_fusion(gp, f['rows'])
             else:
                 CV.write_gvf(gp, f['rows'], source=f.get('source', 'gSNP%d' % i))
             paths.append(gp)
